@@ -9,6 +9,7 @@ pub type Cost = isize;
 
 mod dd;
 mod fam;
+mod solve;
 mod viz;
 
 use ddo::*;
@@ -115,6 +116,65 @@ fn run_dd(a: &Args, limits: &Limits, symbolic: bool, initial: &[(String, i64)]) 
     }
 }
 
+fn run_solve(a: &Args, limits: &Limits, symbolic: bool, initial: &[(String, i64)]) {
+    let gp = gen_params(a);
+    let shape = Shape::generate(&gp);
+    let rub = if a.get("rub", "none") == "hslack" { Rub::HSlack } else { Rub::None };
+    for ddname in a.list("dd", "lel").iter() {
+        for cache in a.list("cache", "0").iter() {
+            for fringe in a.list("fringe", "simple").iter() {
+                for w in a.list("width", "2").iter() {
+                    for mode in a.list("mode", "plain").iter() {
+                        let c = solve::SolveCase {
+                            shape: shape.clone(),
+                            rub: rub.clone(),
+                            cache: cache == "1",
+                            nodup: fringe == "nodup",
+                            width: w.parse().unwrap(),
+                            rev_rank: a.flag("rev"),
+                            mode: match mode.as_str() {
+                                "plain" => solve::Mode::Plain,
+                                "cutoff" => solve::Mode::Cutoff,
+                                "cutoff2" => solve::Mode::Cutoff2,
+                                "warm" => solve::Mode::Warm,
+                                "polls" => solve::Mode::Polls,
+                                x => panic!("mode={}", x),
+                            },
+                            warm: a.num("warm", 0) as usize,
+                            props: a.list("props", ""),
+                            kmax: a.num("kmax", 40) as i64,
+                            sym_init: a.flag("sym_init"),
+                        };
+                        macro_rules! go {
+                            ($d:ty) => {
+                                if c.cache {
+                                    explore(limits, gp.seed, symbolic, initial, &mut || solve::body::<$d, SimpleCache<St>>(&c))
+                                } else {
+                                    explore(limits, gp.seed, symbolic, initial, &mut || solve::body::<$d, EmptyCache<St>>(&c))
+                                }
+                            };
+                        }
+                        let rep = match ddname.as_str() {
+                            "lel" => go!(Mdd<St, { LAST_EXACT_LAYER }>),
+                            "frontier" => go!(Mdd<St, { FRONTIER }>),
+                            "pooled" => go!(Pooled<St>),
+                            x => panic!("dd={}", x),
+                        };
+                        let mut case = a.0.clone();
+                        case.insert("dd".into(), ddname.clone());
+                        case.insert("cache".into(), cache.clone());
+                        case.insert("fringe".into(), fringe.clone());
+                        case.insert("width".into(), w.clone());
+                        case.insert("mode".into(), mode.clone());
+                        case.remove("inputs");
+                        emit(&case, &shape.describe(), &rep);
+                    }
+                }
+            }
+        }
+    }
+}
+
 fn main() {
     let mut m = BTreeMap::new();
     for arg in std::env::args().skip(1) {
@@ -132,6 +192,7 @@ fn main() {
     let symbolic = cfg!(feature = "symx") && !a.flag("concrete");
     match a.get("kind", "dd").as_str() {
         "dd" => run_dd(&a, &limits, symbolic, &initial),
+        "solve" => run_solve(&a, &limits, symbolic, &initial),
         "find" => {
             // list seeds start..start+count whose structure has all the wanted static features
             let wantf = a.list("features", "");
